@@ -52,7 +52,7 @@ def scenario(seed, c, size=20000):
     sc = {"seed": seed, "bounded": False, "bi": bi, "uni": uni, "size": size if not lingers else 2000, "chunk": 4096,
           "faults": faults, "qlog": "capture", "qkeep": "life", "lat_ms": 5, "max_segments": 4,
           "cparams": cp, "sparams": sp, "close": close, "lingers": lingers, "idle_us": idle * 1000,
-          "deadline_ms": 4 * max(idle, 1000) + 5000, "case": c}
+          "deadline_ms": 4 * max(idle, 1000) + 5000, "case": c, "cli_accepts": not lingers}
     sc.update(extra)
     return sc
 
